@@ -2,20 +2,22 @@
 
 (a) model correspondence (model_correspondence): generated projects are run in-process through the whole of
     ford.main.  ford.fortran_project.find_all_files is replaced so that the set of source files is handed over
-    in a chosen order; the real code sorts it (80d6c91), so every such run must parse the files in the order
-    the model computes (isort path_leb: path components, not strings) and all of them must agree (bit1, the
-    property; region 1 = an entity of a set-ordered phase competes for its name).  The same orders are then
-    run with the name `sorted` neutralised inside ford.fortran_project, which drives the pipeline through
-    arbitrary enumerations: the model (Out/Project.v idents_enum over the segments measured on the first run)
-    must reproduce the identifier of every entity in every run (bit0).
-    graph_emission: node order of every graph hop and child-edge order of every InheritedByGraph node against
-    the model's sorted emission.
+    in a chosen order; the real code sorts it, so every such run must parse the files in the order the model
+    computes (isort path_leb: path components, not strings), walk the fixed phases (rank-ordered loops, list
+    pages) in exactly the same sequence, and all of them must agree (bit1, the property; there is no known
+    region any more).  The same orders are then run with the name `sorted` neutralised inside
+    ford.fortran_project, which drives the pipeline through arbitrary enumerations.  In every run the model
+    (Out/Project.v idents_enum over the segments measured on the first run) must reproduce the identifier of
+    every entity, and the set-ordered phases (toposort, graphs) may only ask for entities that an earlier
+    by-file phase has asked for (bit0).
+    graph_emission: node order of every graph hop, child-edge order of every InheritedByGraph node, rows of
+    the table that replaces an oversized graph, and ford.output.sort_by_name against the model.
 (b) the property on real runs (e2e): `python -m ford` in subprocesses, several PYTHONHASHSEED values, parallel
-    in {0, 2, 8}, output directory absent / stale from another project / from the same project, and the same
-    project moved to another directory; recursive byte comparison; a difference is accepted only when the
-    canonicalisation of an applicable OPEN finding (harness/impl/c12run.py apply_canon) removes it.
-(c) findings: the witness of every open finding is replayed (KNOWN-FINDING lines come from here only); the
-    witnesses of the fixed findings are regression inputs: any difference is a VIOLATION.
+    in {0, 2, 8}, output directory absent / stale from another project / from the same project, the same
+    project moved to another directory, graphs and graph tables (graph_maxnodes) with equally labelled
+    neighbours; recursive byte comparison; ANY difference is a VIOLATION.
+(c) findings: the one open finding is replayed (KNOWN-FINDING line); the witnesses of the fixed findings are
+    regression inputs.
 """
 import itertools
 import os
@@ -31,12 +33,13 @@ from harness.impl import fordrun as F
 from harness.impl import c12run as R
 
 IMPORTS = "From Ford Require Import Base.Str Base.Order Out.Names Out.Project Corr.C12."
-THEOREMS = ["C12_file_order_irrelevant", "C12_sorted_is_canonical_any_order", "C12_location_irrelevant",
-            "C12_former_clash_witness_repaired", "C12_unsorted_refuted", "C12_set_order_irrelevant", "C12_partial",
-            "C12_refuted_witness", "C12_refuted", "C12_noclash_order_irrelevant", "C12_perm_invariant_noclash",
-            "C12_uses_partial", "C12_uses_refuted", "C12_graph_emission_sorted", "C12_child_edges_sorted",
-            "C12_child_edges_unsorted_refuted", "C12_stale_output_irrelevant", "C12_merge_refuted",
-            "C12_nonvacuous"]
+THEOREMS = ["C12_deterministic", "C12_file_order_irrelevant", "C12_set_order_irrelevant",
+            "C12_ident_by_key", "C12_repeated_requests_irrelevant", "C12_sorted_is_canonical_any_order", "C12_location_irrelevant",
+            "C12_former_witnesses_repaired", "C12_unsorted_refuted", "C12_free_sets_refuted",
+            "C12_noclash_order_irrelevant", "C12_uses_sorted", "C12_uses_unsorted_refuted",
+            "C12_graph_emission_sorted", "C12_child_edges_sorted", "C12_child_edges_unsorted_refuted",
+            "C12_table_rows_sorted", "C12_table_rows_from_set_refuted", "C12_stale_output_irrelevant",
+            "C12_merge_refuted"]
 CASE_T = "acase"
 DATE = re.compile(rb" on \d{4}-\d\d-\d\dT[0-9:.+-]+ ")
 
@@ -86,10 +89,11 @@ def build_case(order0, runs):
     for r in runs:
         pi = [order0.index(x) for x in r["forced"] if x in order0]
         obs = [order0.index(x) for x in r["enum"] if x in order0]
-        sets = {k: [ids[e] for e in v] for k, v in r["sets"].items()}
+        fixed = {k: [ids[e] for e in v] for k, v in r["fixed"].items()}
+        idsets = {k: [ids[e] for e in v] for k, v in r["idsets"].items()}
         impl = coq_list(f"({ids[key]}, {coq_str(v)})" for key, v in r["final"].items())
         mode = "false" if r.get("unsorted") else "true"
-        runs_t.append(f"(({mode}, {nat_list(pi)}, {nat_list(obs)}), {sparse(sets)}, {impl})")
+        runs_t.append(f"(({mode}, {nat_list(pi)}, {nat_list(obs)}), {sparse(fixed)}, {sparse(idsets)}, {impl})")
     return f"({ents_t}, {coq_list(files_t)}, {coq_list(runs_t)})", problems
 
 
@@ -119,6 +123,8 @@ def model_projects(chk, rng):
     out.append(("witness", {"src/a.f90": "module ma\n  integer :: x\n    !! doc of x in a\nend module ma\n",
                             "src/b.f90": "module mb\n  integer :: x\n    !! doc of x in b\nend module mb\n"},
                 {"clash": True}))
+    # the former toposort witness: equally named modules in one level of the toposort
+    out.append(("twins", dict(WIT_TWINS), {"clash": True, "modclash": True}))
     # sorted(paths) compares path components, not strings: A.f90 < a/b.f90 < a-b.f90 < a.f90
     out.append(("paths", {f"src/{p}.f90": f"module m{k}\n  integer :: x\n    !! doc of x\nend module m{k}\n"
                           for k, p in enumerate(["a-b", "a/b", "a", "A"])}, {"clash": True}))
@@ -182,30 +188,28 @@ def model_correspondence(chk, rng):
     nclash = 0
     for idx, (files, opts, runs, meta) in enumerate(info):
         code = res.get(idx, 0)
-        region = code >> 2
         real = [r for r in runs if not r["unsorted"]]
         differs = any(r["final"] != real[0]["final"] for r in real[1:])
         spec = [{"forced": r["forced"], "unsorted": r["unsorted"]} for r in runs]
         if code & 2:
             chk.disagreements += 1
             nclash += 1
-            if region == 0 or not chk.known("toposort-id-order", False):
-                chk.violation("failing-input",
-                              {"what": "the real code assigns different identifiers when the set of source files "
-                                       "is iterated in another order (or from run to run) although no entity "
-                                       "requested in a set-ordered phase competes for a name",
-                               "runs": spec, "parse_orders": [r["enum"] for r in runs], "options": opts,
-                               "code": code, "files": files}, True)
+            chk.violation("failing-input",
+                          {"what": "the real code assigns different identifiers when the set of source files is "
+                                   "iterated in another order or from one run to the next",
+                           "runs": spec, "parse_orders": [r["enum"] for r in runs], "options": opts,
+                           "code": code, "files": files}, True)
         elif differs:
             chk.violation("broken-correspondence", {"what": "judge missed a difference", "files": files}, False)
         if code & 1:
             bad = chk.coq_eval(IMPORTS, f"bad_runs {cases[idx]}")
             chk.violation("broken-correspondence",
-                          {"what": "a traced run differs from the model (parse order = sorted order of the paths, "
-                                   "identifier of every entity)", "code": code, "bad_runs": bad[-300:],
-                           "runs": spec, "parse_orders": [r["enum"] for r in runs],
-                           "options": opts, "files": files}, False)
-    chk.extra["model_projects_with_set_order_dependent_idents"] = nclash
+                          {"what": "a traced run differs from the model (parse order = sorted order of the paths; "
+                                   "fixed phases identical in all real runs; id-set phases only repeat requests "
+                                   "of earlier by-file phases; identifier of every entity)",
+                           "code": code, "bad_runs": bad[-300:], "runs": spec,
+                           "parse_orders": [r["enum"] for r in runs], "options": opts, "files": files}, False)
+    chk.extra["model_projects_whose_real_runs_disagree"] = nclash
 
 
 # ----------------------------------------------------------------------------- graph node emission
@@ -245,21 +249,61 @@ def graph_emission(chk, rng):
         if len(given) >= 2:
             elog.append((node.ident, given, tails))
         return r
+    orig_table = fg.FortranGraph._make_graph_as_table
+    tlog = []
+
+    def make_table(self):
+        given = [(n.ident, str(n.attribs["label"]), n.attribs.get("URL")) for n in self.hop_nodes]
+        html = orig_table(self)
+        rows = re.findall(r'class="node" bgcolor="[^"]*">(?:<a href="([^"]*)">)?([^<]*)', html)
+        tlog.append((type(self).__name__, self.ident, given, rows))
+        return html
     fg.graphviz_installed = False
     fg.FortranGraph.add_to_graph = add_to_graph
     fg.InheritedByGraph.add_node = add_node
+    fg.FortranGraph._make_graph_as_table = make_table
     ecases, einfo = [], []
+    tcases, tinfo = [], []
     try:
-        for i in range(nproj):
-            files, meta = P.gen(rng, nfiles=rng.choice([3, 4]), clash=(i % 2 == 0), multiuse=True, children=True)
+        for i in range(nproj + (2 if chk.tier == "quick" else 8)):
+            if i < nproj:
+                files, meta = P.gen(rng, nfiles=rng.choice([3, 4]), clash=(i % 2 == 0), multiuse=True, children=True)
+                gopts = {"graph": "true", "search": "false"}
+            else:
+                files, meta = P.gen_table(rng)
+                gopts = {"graph": "true", "search": "false", "graph_maxnodes": str(rng.choice([2, 3]))}
             with F.Work(files) as w:
                 del log[:]
                 del elog[:]
-                data, out, err = F.full_run_inprocess(w.root, {"graph": "true", "search": "false"})
+                del tlog[:]
+                data, out, err = F.full_run_inprocess(w.root, gopts)
             if err:
                 chk.notes.append(f"graph emission: FORD failed: {err}")
                 continue
             seen = set()
+            for cls, gid, given, rows in tlog:
+                # graphs whose add_node walks its neighbours in sorted order (the type graphs walk dicts)
+                if cls in ("InheritsGraph", "InheritedByGraph", "TypeGraph") or len(given) < 2:
+                    continue
+                tok = {}
+                for ident, label, url in given:
+                    tok.setdefault((url or "", label), []).append(ident)
+                if any(len(v) > 1 for v in tok.values()) or (gid, tuple(rows)) in seen \
+                        or len(rows) != len(given) or any((u, l) not in tok for u, l in rows):
+                    continue
+                seen.add((gid, tuple(rows)))
+                impl = [tok.get((u, l), ["?"])[0] for u, l in rows]
+                shuffled = [(i_, l) for i_, l, _ in given]
+                rng.shuffle(shuffled)
+                if not all(core.is_ascii(a) and core.is_ascii(b) for a, b in shuffled):
+                    continue
+                tcases.append("(" + coq_list(f"({coq_str(a)}, {coq_str(b)})" for a, b in shuffled) + ", "
+                              + coq_list(map(coq_str, impl)) + ")")
+                tinfo.append((gid, given, rows))
+                chk.count(("table", gid, tuple(impl)),
+                          nontrivial=len({l.lower() for _, l in shuffled}) < len(shuffled),
+                          sample={"table_of": gid, "neighbours_in_set_order": [g[:2] for g in given],
+                                  "rows": impl})
             for parent, given, tails in elog:
                 if (parent, tuple(tails)) in seen or not all(map(core.is_ascii, given + tails + [parent])):
                     continue
@@ -284,6 +328,19 @@ def graph_emission(chk, rng):
         fg.graphviz_installed = orig_flag
         fg.FortranGraph.add_to_graph = orig_add
         fg.InheritedByGraph.add_node = orig_node
+        fg.FortranGraph._make_graph_as_table = orig_table
+    tres = chk.coq_judge(IMPORTS, "list (str * str) * list str", "judge_table", tcases)
+    if tres is not None:
+        chk.traces += len(tcases)
+        chk.extra["graph_table_cases"] = len(tcases)
+        for idx, code in sorted(tres.items())[:3]:
+            gid, given, rows = tinfo[idx]
+            chk.violation("failing-input",
+                          {"what": "the rows of the table that replaces an oversized graph are not the stable "
+                                   "label-sort of the identifier-ordered neighbours (equally labelled neighbours "
+                                   "must not come out in set order)", "graph": gid,
+                           "neighbours_in_set_order": given, "rows": rows, "code": code}, True)
+    uses_filter(chk, rng)
     eres = chk.coq_judge(IMPORTS, "str * list str * list str", "judge_edges", ecases)
     if eres is not None:
         chk.traces += len(ecases)
@@ -305,6 +362,46 @@ def graph_emission(chk, rng):
                        "nodes": given, "emitted": got, "code": code}, bool(code & 2))
 
 
+def uses_filter(chk, rng):
+    """ford.output.sort_by_name (the "Uses" list is rendered through it) against Out/Project.v shown_uses"""
+    import ford.output as fo
+    f = getattr(fo, "sort_by_name", None)
+    used = 'obj.uses | sort_by_name' in (core.REPO / "ford" / "templates" / "macros.html").read_text()
+    if f is None or not used:
+        chk.violation("broken-correspondence",
+                      {"what": "the model renders the \"Uses\" list through ford.output.sort_by_name "
+                               "(templates/macros.html use_list), which this tree does not have",
+                       "filter_defined": f is not None, "template_uses_it": used}, False)
+        return
+
+    class Stub:
+        def __init__(self, name):
+            self.name = name
+    pool = ["ma", "Ma", "MA", "mb", "MB", "iso_c_binding", "ISO_FORTRAN_ENV", "m_1", "m1", "M", "z", "a", "A",
+            "omp_lib", "m", "mod~2", "Z9", "_x"]
+    cases, info = [], []
+    for _ in range(40 if chk.tier == "quick" else 400):
+        names = rng.sample(pool, rng.choice([2, 3, 4, 6]))
+        items = {(n if rng.random() < 0.4 else Stub(n)) for n in names}       # a set, as self.uses is
+        try:
+            got = [getattr(x, "name", x) for x in f(items)]
+        except Exception as e:  # noqa
+            got = ["EXC:" + type(e).__name__]
+        given = list(names)
+        rng.shuffle(given)
+        cases.append(f"({coq_list(map(coq_str, given))}, {coq_list(map(coq_str, got))})")
+        info.append((given, got))
+        chk.count(("uses", tuple(sorted(names))), sample={"uses": given, "rendered_order": got})
+    res = chk.coq_judge(IMPORTS, "list str * list str", "judge_uses", cases)
+    if res is None:
+        return
+    chk.traces += len(cases)
+    for idx, code in sorted(res.items())[:2]:
+        given, got = info[idx]
+        chk.violation("failing-input", {"what": "sort_by_name does not return the (lower-cased name, name) order",
+                                        "names": given, "returned": got, "code": code}, True)
+
+
 # ----------------------------------------------------------------------------- (b) real runs
 
 def mask(tree, opts=None):
@@ -315,14 +412,8 @@ def mask(tree, opts=None):
 
 
 def applicable(meta, opts, same_seed):
-    """the OPEN recorded findings a difference between two runs of this project may be due to; both come from
-    sets of objects hashed by id(), so they apply to any pair of runs (same seed or not)"""
-    a = set()
-    if meta.get("modclash"):
-        a.add("toposort-id-order")
-    if meta.get("multiuse"):
-        a.add("uses-set-order")
-    return a
+    """the open recorded findings a difference between two runs may be due to: none is left"""
+    return set()
 
 
 def e2e_plan(chk, rng):
@@ -357,6 +448,13 @@ def e2e_plan(chk, rng):
                 ("parallel", s0, {"parallel": "0"}, None), ("parallel", s0, {"parallel": "2"}, None),
                 ("location", s0 + 3, {}, None)]
         plan.append((f"g{i}", files, meta, opts, runs))
+    # graphs that fall back to the HTML table (graph_maxnodes), equally labelled neighbours
+    for i in range(1 if quick else 4):
+        files, meta = P.gen_table(rng)
+        opts = {"graph": "true", "search": "false", "graph_maxnodes": str(rng.choice([2, 3]))}
+        s0 = rng.randrange(1000)
+        runs = [("seed", s0 + k, {}, None) for k in range(4 if quick else 6)] + [("location", s0 + 9, {}, None)]
+        plan.append((f"t{i}", files, meta, opts, runs))
     return plan
 
 
@@ -451,60 +549,55 @@ WIT_KIDS = {"src/a.f90": "module ma\n  type :: base\n    integer :: i\n  end typ
                          + "end module ma\n"}
 
 
-def differ(files, opts, seeds, kinds, attempts):
-    """several runs of one project in one directory -> (the recorded findings that are NEEDED to explain the
-    differences observed, whether every difference is explained, a sample difference)"""
+WIT_TABLE = {"src/base.f90": "module base\ncontains\n  subroutine helper()\n  end subroutine helper\nend module base\n",
+             **{f"src/m{k}.f90": f"module m{k}\n  use base\ncontains\n  subroutine init()\n    call helper()\n"
+                                 f"  end subroutine init\nend module m{k}\n" for k in range(1, 6)}}
+
+
+def differ(files, opts, seeds, attempts):
+    """several runs of one project in one directory -> (are all output trees byte-identical?, a sample difference)"""
     trees = R.subprocess_runs(files, [(opts, s, None) for s in seeds][:attempts])
     ok = [t[2] for t in trees if t[0] == 0]
-    if len(ok) < 2:
-        return set(), True, "runs failed: " + trees[0][1][-300:]
-    needed, clean, detail = set(), True, None
+    if len(ok) < len(trees) or len(ok) < 2:
+        bad = [t for t in trees if t[0] != 0]
+        return False, ("a run failed", "exit code %d" % bad[0][0], [bad[0][1][-300:]])
     for t in ok[1:]:
-        cl = R.classify(ok[0], t, set(kinds))
+        cl = R.classify(ok[0], t)
         if cl is not None:
-            detail = cl[1]
-            if cl[0] is None:
-                clean = False
-            else:
-                needed.update(cl[0])
-    return needed, clean, detail
+            return False, cl[1]
+    return True, None
 
 
 def findings(chk, rng):
-    """(open) the witness must still differ, and only in the recorded way -> KNOWN-FINDING line;
-    (fixed) the former witnesses are regression inputs: any difference at all is a VIOLATION"""
+    """the witnesses of the fixed findings are regression inputs: any difference between the output trees of
+    repeated runs is a VIOLATION with that input.  The one open finding (graph_dir + process pool) is replayed
+    and prints its KNOWN-FINDING line while it persists."""
     quick = chk.tier == "quick"
     checks = [
-        # key, project, options, seeds, canonicalisations allowed, fixed by
-        ("uses-set-order", WIT_USES, {}, [3] * 8, ["uses-set-order"], None),
-        ("toposort-id-order", WIT_TWINS, {}, [3] * 8, ["toposort-id-order"], None),
-        ("file-order-anchors", WIT_ANCHORS, {"search": "false"}, list(range(1, 9)), [], "80d6c91"),
-        ("file-order-search-db", WIT_FOUR, {"search": "true"}, list(range(1, 7)), [], "80d6c91"),
-        ("file-order-modules-json", WIT_FOUR, {"externalize": "true"}, list(range(1, 7)), [], "80d6c91"),
-        ("inheritedby-children-order", WIT_KIDS, {"graph": "true"}, list(range(1, 6)), [], "c3c7c8e"),
+        # key, project, options, seeds, fixed by
+        ("uses-set-order", WIT_USES, {}, [3] * 8, "the Uses repair"),
+        ("toposort-id-order", WIT_TWINS, {}, [3] * 8, "the toposort repair"),
+        ("file-order-anchors", WIT_ANCHORS, {"search": "false"}, list(range(1, 9)), "80d6c91"),
+        ("file-order-search-db", WIT_FOUR, {"search": "true"}, list(range(1, 7)), "80d6c91"),
+        ("file-order-modules-json", WIT_FOUR, {"externalize": "true"}, list(range(1, 7)), "80d6c91"),
+        ("inheritedby-children-order", WIT_KIDS, {"graph": "true"}, list(range(1, 6)), "c3c7c8e"),
+        ("graph-table-rows (never a defect of /repo: seeded change)", WIT_TABLE,
+         {"graph": "true", "graph_maxnodes": "3"}, list(range(1, 6)), None),
     ]
     with ThreadPoolExecutor(max_workers=8) as ex:
-        outcomes = list(ex.map(lambda c: differ(c[1], c[2], c[3], c[4], 6 if quick else 8), checks))
+        outcomes = list(ex.map(lambda c: differ(c[1], c[2], c[3], 6 if quick else 8), checks))
         pool_run = ex.submit(R.subprocess_run, WIT_KIDS,
                              {"graph": "true", "graph_dir": "./graphs", "parallel": "2"}, 1)
         rc, out, tree, _ = pool_run.result()
-    for (key, files, opts, seeds, kinds, fixed_by), (needed, clean, detail) in zip(checks, outcomes):
-        fails = key in needed
-        chk.count(("finding", key), sample={"finding": key, "fixed_by": fixed_by, "still_differs": fails or not clean,
+    for (key, files, opts, seeds, fixed_by), (same, detail) in zip(checks, outcomes):
+        chk.count(("finding", key), sample={"witness_of": key, "fixed_by": fixed_by, "runs_identical": same,
                                             "first_difference": detail})
-        if fixed_by:
-            if not clean:
-                chk.violation("failing-input",
-                              {"what": f"regression: the witness of the finding {key} (fixed by {fixed_by}) "
-                                       "gives different output trees again", "seeds": [seeds[0], seeds[-1]],
-                               "options": opts, "first_difference": detail, "files": files}, True)
-            continue
-        if not clean:
-            chk.violation("failing-input", {"what": f"the witness of finding {key} differs in more than the "
-                                                    "recorded way", "first_difference": detail, "files": files}, True)
-        if not chk.known(key, fails) and fails:
-            chk.violation("failing-input", {"what": f"unrecorded nondeterminism ({key})", "files": files,
-                                            "first_difference": detail}, True)
+        if not same:
+            chk.violation("failing-input",
+                          {"what": f"regression: repeated runs of the witness of {key}"
+                                   + (f" (fixed by {fixed_by})" if fixed_by else "") + " give different output trees",
+                           "seeds": [seeds[0], seeds[-1]], "options": opts, "first_difference": detail,
+                           "files": files}, True)
     # graph_dir + process pool
     crashed = rc != 0 and "pickle" in out
     chk.count(("finding", "graph-dir-parallel-pickle"), sample={"rc": rc, "log_tail": out[-200:]})
@@ -585,8 +678,8 @@ def finish(chk):
                    "(Out/Project.v on top of the NameSelector model Out/Names.v); model tied to FORD by traced "
                    "in-process runs (set of files handed over in forced orders; real sort and neutralised sort); "
                    "the property itself searched on real `python -m ford` runs (hash seeds x parallel x "
-                   "output-directory states x project location) with a classifier that accepts only differences "
-                   "explained by an open recorded finding",
+                   "output-directory states x project location x graphs / graph tables) with a byte comparison "
+                   "that accepts no difference",
         trusted_base=["Coq 8.16.1 kernel (vm_compute for cases and witnesses)",
                       "harness/props/c12.py, harness/impl/c12run.py (instrumentation, tree comparison, "
                       "classification), harness/gen/c12proj.py",
@@ -602,5 +695,6 @@ def finish(chk):
         checker_cmd="make theories/Props/C12.vo && coqc theories/Props/C12.v (Print Assumptions)",
         assumptions=["7-bit names", "what one file's entities request inside one loop does not depend on the "
                      "other files (checked on every traced run)",
-                     "equally named modules are never USEd in the generated projects (USE resolution picks the "
-                     "first match in enumeration order)"])
+                     "the order of the rank-ordered loops and of the list pages is a function of the identifiers "
+                     "already assigned (fixed phases: checked to be the same sequence in all real runs)",
+                     "equally named modules are never USEd in the generated projects"])
